@@ -90,10 +90,6 @@ theorem mu_casHeadFail {c s t} (_h : Inv c s) (hp : s.pc t = .dCas) (hh : s.head
     mu (casHeadFail s t) t < mu s t := by
   simp only [casHeadFail]; mu_simp; simp only [hp]; grind
 
-/-- labels of the queue operations (what a thread executes inside `cds_lfq_enqueue_rcu` / `cds_lfq_dequeue_rcu`) -/
-def OpLabel (l : Label) : Prop := l ≠ .lock ∧ l ≠ .unlock ∧ (∀ p, l ≠ .reclaim p) ∧ l ≠ .destroy ∧
-  (∀ n, l ≠ .enqCall n) ∧ l ≠ .deqCall
-
 /-- **progress + measure**: a thread inside an operation always has an enabled own step (it never waits for
 anybody), and every such step strictly decreases `mu`. -/
 theorem solo_progress {c s t} (hc : c.helpTail = true) (h : Inv c s) (hp : s.pc t ≠ .idle) :
@@ -152,11 +148,160 @@ theorem solo_terminates_inv {c s t} (hc : c.helpTail = true) (h : Inv c s) :
     · exact ⟨0, s, Nat.zero_le _, .done s, hp⟩
     · obtain ⟨l, s1, o, st, ol, lt⟩ := solo_progress hc h hp
       obtain ⟨k, s2, hk, run, fin⟩ := ih (mu s1 t) (hm ▸ lt) (inv_step hc h st) rfl
-      exact ⟨k + 1, s2, by omega, .step st ol.1 ol.2.1 ol.2.2.1 run, fin⟩
+      exact ⟨k + 1, s2, by omega, .step st ol run, fin⟩
 
 theorem mu_le {s t} : mu s t ≤ 6 * dumT s t + 25 := by
   mu_simp
   cases s.pc t <;> simp only [] <;> (repeat' split) <;> omega
+
+/-- every step of an operation decreases the measure of the thread that takes it -/
+theorem own_step_decreases {c s s' t l o} (hc : c.helpTail = true) (h : Inv c s) (st : step c s t l = some (s', o))
+    (ol : OpLabel l) : mu s' t < mu s t := by
+  obtain ⟨o1, o2, o3, o4, o5, o6⟩ := ol
+  cases l with
+  | lock => exact absurd rfl o1
+  | unlock => exact absurd rfl o2
+  | reclaim p => exact absurd rfl (o3 p)
+  | destroy => exact absurd rfl o4
+  | enqCall n => exact absurd rfl (o5 n)
+  | deqCall => exact absurd rfl o6
+  | ldTail =>
+    simp only [step] at st
+    split at st
+    · next g => st_inj st; exact mu_ldTail h g
+    · simp at st
+  | casNext =>
+    simp only [step] at st
+    split at st
+    · next g =>
+      split at st
+      · next g0 => st_inj st; exact mu_casNextOk h g g0
+      · next g0 => st_inj st; exact mu_casNextFail h g g0
+    · simp at st
+  | casTailAdv =>
+    simp only [step] at st
+    split at st
+    · next g =>
+      split at st
+      · st_inj st; exact mu_casTailAdvOk h g
+      · st_inj st; exact mu_casTailAdvFail h g
+    · simp at st
+  | casTailHelp =>
+    simp only [step] at st
+    split at st
+    · next g =>
+      split at st
+      · next g0 => st_inj st; exact mu_casTailHelpOk h g g0
+      · next g0 => st_inj st; exact mu_casTailHelpFail h g g0
+    · simp at st
+  | ldHead =>
+    simp only [step] at st
+    split at st
+    · next g => st_inj st; exact mu_ldHead h g
+    · simp at st
+  | ldNext d =>
+    simp only [step] at st
+    split at st
+    · next g =>
+      split at st
+      · next g0 =>
+        split at st
+        · st_inj st; exact mu_ldNextNull h g
+        · next g1 =>
+          split at st
+          · next g2 => st_inj st; exact mu_ldNextAlloc h g g0 (by simpa using g1) g2.2
+          · simp at st
+      · next g0 => st_inj st; exact mu_ldNextGo1 h hc g g0
+    · simp at st
+  | ldNext2 =>
+    simp only [step] at st
+    split at st
+    · next g => st_inj st; exact mu_ldNextGo2 h hc g
+    · simp at st
+  | ldTailD =>
+    simp only [step] at st
+    split at st
+    · next g => st_inj st; exact mu_ldTailDS h g
+    · simp at st
+  | casTailD =>
+    simp only [step] at st
+    split at st
+    · next g =>
+      split at st
+      · st_inj st; exact mu_casTailDOk h g
+      · st_inj st; exact mu_casTailDFail h g
+    · simp at st
+  | casHead =>
+    simp only [step] at st
+    split at st
+    · next g =>
+      split at st
+      · next g0 =>
+        split at st
+        · next g1 => st_inj st; exact mu_casHeadOk false h g g0 (by simp [g1])
+        · next g1 => st_inj st; exact mu_casHeadOk true h g g0 (by simpa using g1)
+      · next g0 => st_inj st; exact mu_casHeadFail h g g0
+    · simp at st
+
+theorem nextLabel_op {s t d l} (h : nextLabel s t d = some l) : OpLabel l := by
+  simp only [nextLabel] at h
+  split at h <;> simp at h <;> subst h <;> simp [OpLabel]
+
+/-- the executable solo runner produces a `SoloRun` -/
+theorem soloExec_soloRun {c t k s s' n} (h : soloExec c t k s = some (s', n)) : SoloRun c t n s s' := by
+  induction k generalizing s n with
+  | zero =>
+    simp only [soloExec] at h
+    split at h
+    · simp only [Option.some.injEq, Prod.mk.injEq] at h; obtain ⟨rfl, rfl⟩ := h; exact .done _
+    · simp at h
+  | succ k ih =>
+    simp only [soloExec] at h
+    split at h
+    · simp only [Option.some.injEq, Prod.mk.injEq] at h; obtain ⟨rfl, rfl⟩ := h; exact .done _
+    · next l hl =>
+      split at h
+      · next s1 o st =>
+        cases e : soloExec c t k s1 with
+        | none => simp [e] at h
+        | some r =>
+          obtain ⟨s2, m⟩ := r
+          simp only [e, Option.map_some, Option.some.injEq, Prod.mk.injEq] at h
+          obtain ⟨rfl, rfl⟩ := h
+          exact .step st (nextLabel_op hl) (ih e)
+      · simp at h
+
+theorem soloRun_reach {c t k s s'} (r : Reach c s) (h : SoloRun c t k s s') : Reach c s' := by
+  induction h with
+  | done => exact r
+  | step st _ _ ih => exact ih (Reach.step r st)
+
+/-- a solo run moves nobody else -/
+theorem soloRun_frame {c t k s s'} (h : SoloRun c t k s s') (u : Nat) (hu : u ≠ t) :
+    s'.pc u = s.pc u ∧ s'.cs u = s.cs u := by
+  induction h with
+  | done => exact ⟨rfl, rfl⟩
+  | @step k s s1 s2 l o st ol _ ih =>
+    have : s1.pc u = s.pc u ∧ s1.cs u = s.cs u := by
+      obtain ⟨o1, o2, o3, o4, o5, o6⟩ := ol
+      cases l <;> step_split st <;> (try (obtain ⟨rfl, -⟩ := st)) <;>
+        simp_all [tick, enqCallS, casNextOk, casNextFail, casTailAdvOk, casTailAdvFail, casTailHelpOk, casTailHelpFail,
+          ldNextNull, ldNextAlloc, ldNextGo, ldTailDS, casTailDOk, casTailDFail, casHeadOk, casHeadFail, reclaimS, upd]
+    exact ⟨ih.1.trans this.1, ih.2.trans this.2⟩
+
+/-- inside a plain enqueue (not the one nested in dequeue) the measure is at most 8, at its entry at most 6 -/
+theorem mu_enq_le {s t} (hd : s.inDeq t = false)
+    (hp : s.pc t = .eLd ∨ s.pc t = .eCas ∨ s.pc t = .eHelp ∨ s.pc t = .eAdv) :
+    mu s t ≤ 8 ∧ (s.pc t = .eLd → mu s t ≤ 6) := by
+  have e0 : mu s t = enqMu s t := by
+    rcases hp with e | e | e | e <;> simp [mu, e, hd]
+  rw [e0]
+  simp only [enqMu, lag]
+  rcases hp with e | e | e | e <;> simp only [e] <;> refine ⟨?_, ?_⟩ <;> (repeat' split) <;> (try simp) <;> (try omega)
+
+/-- at the entry of a dequeue -/
+theorem mu_deq_entry {s t} (hp : s.pc t = .dLdH) : mu s t = 6 * dumT s t + 14 := by
+  simp only [mu, hp, restart]
 
 /-- only a CAS on `q.head` changes `q.head`; only the load of `q.head` changes the local `head` -/
 theorem own_step_keeps_fresh_hd {c s s' t l o} (st : step c s t l = some (s', o)) (hf : s.hd t = s.head)
